@@ -14,6 +14,16 @@ def _is_lock_type(t):
     return bool(t) and t.replace('const ', '').startswith(LOCK_TYPES)
 
 
+def _accessor_path(t):
+    """A mutex obtained from a nullary accessor (`Logger::getLogMutex()`, a function-local static behind it):
+    every call of the same accessor names the same mutex."""
+    while isinstance(t, dict) and t.get('k') == 'cast':
+        t = t.get('e')
+    if isinstance(t, dict) and t.get('k') == 'call' and not t.get('args') and t.get('recv') is None and 'mutex' in (t.get('t') or ''):
+        return cname(t) + '()'
+    return None
+
+
 class LockSets:
     def __init__(self, func, entry_held=()):
         self.f = func
@@ -37,7 +47,7 @@ class LockSets:
                         if isinstance(init, dict) and init.get('k') == 'ctor':
                             args = [a for a in init.get('args', []) if not (isinstance(a, dict) and a.get('defarg'))]
                             if args:
-                                m = ap(args[0])
+                                m = ap(args[0]) or _accessor_path(args[0])
                                 deferred = len(args) > 1 and 'defer_lock' in str(args[1])
                                 if m is not None:
                                     d[str(v['id'])] = (m, not deferred)
